@@ -32,7 +32,7 @@ class C01(HistoryCheck):
     LEVEL = "fault_enumeration"
     RUNS = {"quick": 1200, "thorough": 12000}
     PROFILE = {"allow_frozen": False, "allow_class_dnc": False, "allow_parent_class_dnc": True, "allow_lookup_preparer": True}
-    OPGEN = {"p_bad": 0.25, "p_inplace": 0.25, "p_returner": 0.35}
+    OPGEN = {"p_bad": 0.25, "p_inplace": 0.25, "p_returner": 0.35, "p_user_keyfn": 0.3}
     N_OPS = {"quick": (6, 16), "thorough": (8, 25)}
     P_PROBE = {"quick": 0.1, "thorough": 0.25}
     RULE = ("a probe = (reachable receiver state from a seeded history, generated helper called without "
